@@ -217,6 +217,13 @@ func (e *strEval) eval(v ssa.Value, fr *frame) ([]string, bool) {
 		case *ssa.Global:
 			return e.hole()
 		case *ssa.FieldAddr:
+			// a field of a package-level table of statement texts (`bucketSQL.setName`)
+			if g, ok := cell.X.(*ssa.Global); ok {
+				if str, ok := e.m.globalStructString(g, cell.Field); ok {
+					return []string{str}, true
+				}
+				return e.hole()
+			}
 			// a string field of a local struct that is built up step by step (a statement builder)
 			if vals, ok := e.loadVal[x]; ok {
 				if vals == nil {
